@@ -140,3 +140,38 @@ Proof.
   intros z. split; [apply new_empty_empty|]. split; [apply new_full_spec | apply new_wf].
 Qed.
 Print Assumptions C15_constructors.
+
+(* ---------- pyramids: one box per level, the set operations level by level ---------- *)
+From VT Require Import Model.Pyramid Proofs.PyramidProofs.
+
+Theorem C15_pyramid_intersect :
+  forall p q, wfp p -> wfp q ->
+    exists r, py_intersect p q = Ok r /\ wfp r /\
+      forall z x y, In_pyr r z x y <-> In_pyr p z x y /\ In_pyr q z x y.
+Proof. exact py_intersect_spec. Qed.
+Print Assumptions C15_pyramid_intersect.
+
+Theorem C15_pyramid_zoom_min :
+  forall p m, wfp p -> wfp (py_set_zoom_min p m) /\
+    forall z x y, In_pyr (py_set_zoom_min p m) z x y <-> In_pyr p z x y /\ (m <= z)%N.
+Proof. exact py_set_zoom_min_spec. Qed.
+Print Assumptions C15_pyramid_zoom_min.
+
+Theorem C15_pyramid_zoom_max :
+  forall p m, wfp p -> wfp (py_set_zoom_max p m) /\
+    forall z x y, In_pyr (py_set_zoom_max p m) z x y <-> In_pyr p z x y /\ (z <= m)%N.
+Proof. exact py_set_zoom_max_spec. Qed.
+Print Assumptions C15_pyramid_zoom_max.
+
+Theorem C15_pyramid_lowest_level :
+  forall p z, wfp p -> py_zoom_min p = Some z ->
+    (exists x y, In_pyr p z x y) /\ forall z' x y, (z' < z)%N -> ~ In_pyr p z' x y.
+Proof. exact py_zoom_min_spec. Qed.
+Print Assumptions C15_pyramid_lowest_level.
+
+Theorem C15_pyramid_include_coord :
+  forall p z x y, wfp p -> (z <= 31)%N -> (x <= level_max z)%N -> (y <= level_max z)%N ->
+    exists r, py_include_coord p z x y = Ok r /\ wfp r /\ In_pyr r z x y /\
+      forall z' u v, In_pyr p z' u v -> In_pyr r z' u v.
+Proof. exact py_include_coord_spec. Qed.
+Print Assumptions C15_pyramid_include_coord.
